@@ -129,6 +129,12 @@ fn targeted_at(form: u64, t: u16, real: bool) -> Option<(Machine, u32, String)> 
         12 => { name = "JSR then fetch"; let pc = [t.wrapping_sub(1), t.wrapping_add(1023)].into_iter().find(|p| user(*p))?; let off = t.wrapping_sub(pc.wrapping_add(1)) as i16; if !(-1024..=1023).contains(&off) { return None; } m.pc = pc; m.pokes.push((pc, 0x4800 | (off as u16 & 0x7FF))); steps = 2; }
         13 => { name = "RTI"; m.pokes.push((0x3000, 0x8000)); m.regs[6] = t; }
         14 => { name = "PUTS with pointer"; m.regs[0] = t; m.pokes.push((0x3000, 0xF022)); steps = 40; }
+        15 => { name = "LDR through R6"; m.regs[6] = t; m.pokes.push((0x3000, 0x6180)); }                // LDR R0,R6,#0
+        16 => { name = "STR through R6"; m.regs[6] = t; m.pokes.push((0x3000, 0x7180)); }                // STR R0,R6,#0
+        17 => { name = "LDR base = destination"; m.pokes.push((0x3000, 0x6240)); }                       // LDR R1,R1,#0
+        18 => { name = "STR base = source"; m.pokes.push((0x3000, 0x7240)); }                            // STR R1,R1,#0
+        19 => { name = "LDR through R7"; m.regs[7] = t; m.pokes.push((0x3000, 0x61C0)); }                // LDR R0,R7,#0
+        20 => { name = "STR through R6 with offset"; m.regs[6] = t.wrapping_add(5); m.pokes.push((0x3000, 0x71BB)); } // STR R0,R6,#-5
         _ => return None,
     }
     Some((m, steps, format!("{name} aimed at x{t:04X}")))
@@ -223,8 +229,10 @@ fn run_switches(n: u64, form: u64, io: bool, real: bool) -> Result<Option<bool>,
     Ok(Some(violated))
 }
 
-fn run_sweep(ci: u64, w: u16) -> Result<Expect, (String, String)> {
+fn run_sweep(ci: u64, w: u16) -> Result<Expect, (String, String)> { run_sweep_s(ci, w, false) }
+fn run_sweep_s(ci: u64, w: u16, strict: bool) -> Result<Expect, (String, String)> {
     let mut m = context(ci);
+    m.strict = strict;
     if m.pc < 0xFE00 { m.pokes.push((m.pc, w)); } else { m.regs[0] = w; }
     let mut p = build(&m);
     check_step(&mut p, &format!("sweep context {ci}"))
@@ -232,9 +240,9 @@ fn run_sweep(ci: u64, w: u16) -> Result<Expect, (String, String)> {
 fn user_contexts(thorough: bool) -> Vec<u64> { (0..context_count(thorough)).filter(|i| { let m = context(*i); m.psr >> 15 == 1 && !m.ignore_priv }).collect() }
 
 pub fn run(ctx: &Ctx) -> Report {
-    let mut rep = Report::new("user mode, privilege checks on, real and virtual traps: (1) targeted (each also in strict mode with the data register never written, where strict-mode objections must not replace the access-control outcome): 15 access/transfer forms (LDR, STR, LDI/STI second hop, LD/ST/LDI/STI first hop by PC-relative reach, JMP/JSRR/JSR/BR-taken followed by the fetch, PC preset, RTI, PUTS with a pointer argument) each aimed at every address of the 18-address boundary set {x0000,x0001,x01FF,x0200,x2FFE,x2FFF|x3000,x3001,xFDFE,xFDFF|xFE00,xFE02,xFE04,xFE06,xFE10,xFFFC,xFFFE,xFFFF}; (2) every 16-bit word in every user-mode single-step context of the C08 grid; (3) history: the same 15 forms aimed at every supervisor-space address that the OS executed or accessed while serving a user-mode OUT / PUTS / GETC call made a moment earlier on the same simulator (non-initial states: anything the simulator remembers about an address from supervisor-mode use must not leak into user mode). Oracle: an independent attempt classifier computed from the pre-state (fetch address, effective addresses in ISA order, RTI): an attempt outside x3000-xFDFF must be reported (virtual) or vectored with supervisor PSR, R6 = SSP-2, saved user PSR (real), leave the target word, keyboard queue, display buffer and recording-device log unchanged and the observer inside user space apart from the vector entry and two stack slots; steps whose addresses are all inside must not report a violation. non-trivial = steps classified as attempts");
-    let r = sweep(ctx, 15 * 18 * 2 * 2, 4, |k, acc| {
-        let (strict, k) = (k >= 15 * 18 * 2, k % (15 * 18 * 2));
+    let mut rep = Report::new("user mode, privilege checks on, real and virtual traps: (1) targeted [21 forms: the 15 listed plus LDR/STR through R6 (with and without offset), through R7, and with base = destination / base = source register] (each also in strict mode with the data register never written, where strict-mode objections must not replace the access-control outcome): 15 access/transfer forms (LDR, STR, LDI/STI second hop, LD/ST/LDI/STI first hop by PC-relative reach, JMP/JSRR/JSR/BR-taken followed by the fetch, PC preset, RTI, PUTS with a pointer argument) each aimed at every address of the 18-address boundary set {x0000,x0001,x01FF,x0200,x2FFE,x2FFF|x3000,x3001,xFDFE,xFDFF|xFE00,xFE02,xFE04,xFE06,xFE10,xFFFC,xFFFE,xFFFF}; (2) every 16-bit word in every user-mode single-step context of the C08 grid, in non-strict and in strict mode; (3) history: the same 15 forms aimed at every supervisor-space address that the OS executed or accessed while serving a user-mode OUT / PUTS / GETC call made a moment earlier on the same simulator (non-initial states: anything the simulator remembers about an address from supervisor-mode use must not leak into user mode). Oracle: an independent attempt classifier computed from the pre-state (fetch address, effective addresses in ISA order, RTI): an attempt outside x3000-xFDFF must be reported (virtual) or vectored with supervisor PSR, R6 = SSP-2, saved user PSR (real), leave the target word, keyboard queue, display buffer and recording-device log unchanged and the observer inside user space apart from the vector entry and two stack slots; steps whose addresses are all inside must not report a violation. non-trivial = steps classified as attempts");
+    let r = sweep(ctx, 21 * 18 * 2 * 2, 4, |k, acc| {
+        let (strict, k) = (k >= 21 * 18 * 2, k % (21 * 18 * 2));
         let (form, ti, real) = (k / 36, k / 2 % 18, k % 2 == 1);
         match run_targeted_s(form, ti, real, strict) {
             Ok(None) => {}
@@ -246,8 +254,8 @@ pub fn run(ctx: &Ctx) -> Report {
     rep.absorb(r);
     // history family
     let maxk = (0..6).map(|i| preamble_targets(i / 2, i % 2 == 1).len() as u64).max().unwrap_or(0);
-    let r = sweep(ctx, 3 * 15 * maxk * 2, 4, |i, acc| {
-        let (pre, form, k, real) = (i / (15 * maxk * 2), i / (maxk * 2) % 15, i / 2 % maxk, i % 2 == 1);
+    let r = sweep(ctx, 3 * 21 * maxk * 2, 4, |i, acc| {
+        let (pre, form, k, real) = (i / (21 * maxk * 2), i / (maxk * 2) % 21, i / 2 % maxk, i % 2 == 1);
         match run_history(pre, form, k, real) {
             Ok(None) => {}
             Ok(Some(v)) => { acc.evals += 1; acc.transitions += 40; acc.count("history_cases", 1); if v { acc.nontrivial += 1; acc.count("history_attempts", 1); } acc.outcomes.insert(mix(form + 1000 * (pre + 1), v as u64)); }
@@ -269,16 +277,17 @@ pub fn run(ctx: &Ctx) -> Report {
     rep.bound("history_targets_per_service", Json::i(maxk));
     let ucs = user_contexts(ctx.thorough());
     let n = ucs.len() as u64;
-    let r = sweep(ctx, n * 65536, 1024, |k, acc| {
+    let r = sweep(ctx, n * 65536 * 2, 1024, |k, acc| {
+        let (strict, k) = (k >= n * 65536, k % (n * 65536));
         let (ci, w) = (ucs[(k / 65536) as usize], (k % 65536) as u16);
         acc.evals += 1; acc.transitions += 1; acc.count("sweep_steps", 1);
-        match run_sweep(ci, w) {
+        match run_sweep_s(ci, w, strict) {
             Ok(e) => { if e != Expect::Clean { acc.nontrivial += 1; acc.count("sweep_attempts", 1); } acc.outcomes.insert(mix((w >> 12) as u64 + 100, matches!(e, Expect::Clean) as u64 + 2 * (ci % 8))); }
-            Err((sig, d)) => acc.violation(sig, format!("s:{ci}:{w}"), d),
+            Err((sig, d)) => acc.violation(sig, format!("s:{ci}:{w}:{}", strict as u8), d),
         }
     });
     rep.absorb(r);
-    rep.bound("user_contexts", Json::i(n)); rep.bound("boundary_addresses", Json::i(18)); rep.bound("forms", Json::i(15));
+    rep.bound("user_contexts", Json::i(n)); rep.bound("boundary_addresses", Json::i(18)); rep.bound("forms", Json::i(21));
     rep.require(rep.acc.get("targeted_attempts") > 150 && rep.acc.get("sweep_attempts") > 10_000, "attempts outside user space were made and judged");
     rep.require(rep.acc.get("history_attempts") > 500, "attempts at addresses the OS had just executed were made and judged");
     rep.require(rep.acc.get("sweep_steps") - rep.acc.get("sweep_attempts") > 10_000, "clean steps were judged too");
@@ -287,6 +296,6 @@ pub fn run(ctx: &Ctx) -> Report {
 pub fn replay(case: &str) -> Option<String> {
     let p: Vec<&str> = case.split(':').collect();
     let n = |i: usize| -> Option<u64> { p.get(i)?.parse().ok() };
-    let r = match *p.first()? { "t" => run_targeted_s(n(1)?, n(2)?, n(3)? == 1, n(4).unwrap_or(0) == 1).map(|_| ()), "s" => run_sweep(n(1)?, n(2)? as u16).map(|_| ()), "w" => run_switches(n(1)?, n(2)?, n(3)? == 1, n(4)? == 1).map(|_| ()), "h" => run_history(n(1)?, n(2)?, n(3)?, n(4)? == 1).map(|_| ()), _ => return None };
+    let r = match *p.first()? { "t" => run_targeted_s(n(1)?, n(2)?, n(3)? == 1, n(4).unwrap_or(0) == 1).map(|_| ()), "s" => run_sweep_s(n(1)?, n(2)? as u16, n(3).unwrap_or(0) == 1).map(|_| ()), "w" => run_switches(n(1)?, n(2)?, n(3)? == 1, n(4)? == 1).map(|_| ()), "h" => run_history(n(1)?, n(2)?, n(3)?, n(4)? == 1).map(|_| ()), _ => return None };
     r.err().map(|(s, d)| format!("[{s}] {d}"))
 }
